@@ -145,6 +145,9 @@ impl BigNumber {
     }
 
     pub fn to_bytes(&self) -> ClResult<Vec<u8>> {
+        if self.bn.is_zero() {
+            return Ok(Vec::new());
+        }
         let (_, res) = self.bn.to_bytes_be();
         Ok(res)
     }
